@@ -132,7 +132,7 @@ class Checker:
                 del eng.obs[mark:]
                 fn = None
                 try:
-                    _, _, sha, span = front.find_function(c.file, c.qual)
+                    _, _, sha, span = front.find_function(c.file, c.source or c.qual)
                 except front.AttachError as e2:
                     self.problems.append('contract cannot attach: %s' % e2)
                     continue
